@@ -95,12 +95,38 @@ def run(ctx):
                   "oomd.dropin.added rises by 1", "stat changes by " + adr.text(adr.nodes[i]["args"][1]))
     # the base is located by name; unknown target refused
     X = Expander(P, adr)
+    # the same search written as a loop: an iterator walks rulesets_ forward and every `break` out of the walk is taken on the
+    # name-equality edge of the current element
+    hand = None
+    for l in loops(adr):
+        w = loop_walk_any(adr, l)
+        if not w or w["dir"] != "forward" or w["container"] != "this->rulesets_":
+            continue
+        fl_ = Flow(P, adr, cg=ctx.cg)
+        brk = [b for b in adr.cfg if (b.get("term") or {}).get("cls") == "BreakStmt" and l["stmt"] in list(adr.ancestors(b["term"].get("stmt", -1)))]
+        NAMEEQ = re.compile(r"^\(%s->ruleset->getName\(\) == (param:)?ruleset->getName\(\)\)$|^\((param:)?ruleset->getName\(\) == %s->ruleset->getName\(\)\)$" % (re.escape(w["var"]), re.escape(w["var"])))
+        okb = bool(brk)
+        for b in brk:
+            facts = set()
+            st_ = fl_.at_pos((b["id"], 0)) if b["elems"] else None
+            gsrc = fl_.guards(b["term"]["stmt"]) if adr.pos_of(b["term"].get("stmt", -1)) is not None else None
+            if gsrc is None:
+                # guards of the block holding the break: take them from its first element or from the predecessor's edge facts
+                preds = [(pb["id"], j) for pb in adr.cfg for j, s_ in enumerate(pb.get("succ", [])) if s_ == b["id"]]
+                gsrc = set()
+                for pb, j in preds:
+                    gsrc |= set(fl_.edge_facts(pb, j))
+            if not any(NAMEEQ.match(k) and p is True for k, p in gsrc if isinstance(k, str)):
+                okb = False
+        if okb:
+            hand = w
     for i in mk + ef:
         r = X(adr.nodes[i]["recv"])
-        ctx.check("std::find_if(this->rulesets_.begin(), this->rulesets_.end()" in r, "add:on-the-named-base", "provenance", adr.loc(i),
+        byloop = hand is not None and re.match(r"^var:%s->" % re.escape(hand["var"]), r) is not None
+        ctx.check("std::find_if(this->rulesets_.begin(), this->rulesets_.end()" in r or byloop, "add:on-the-named-base", "provenance", adr.loc(i),
                   "operates on the base ruleset found by name", "operates on " + r[:100])
     pred = [l for l in P.lambdas_in(adr)]
-    okp = any("getName()" in l.text(l.nodes[r]["val"]) and "==" in l.text(l.nodes[r]["val"]) for l in pred for r in returns(l))
+    okp = any("getName()" in l.text(l.nodes[r]["val"]) and "==" in l.text(l.nodes[r]["val"]) for l in pred for r in returns(l)) or hand is not None
     ctx.check(okp, "add:target-by-name", "value-shape", adr.loc(), "the target is matched by ruleset name", "target predicate is not a name comparison")
     for i in ef:
         g = fl.guards(i)
